@@ -216,7 +216,7 @@ Qed.
 (* ------------------------------------------------------------------ *)
 (* a finite child pixel keeps the merged float tile from being masked   *)
 
-Lemma mosaic_at (val : mode -> pixel -> pixel) bu k m0 cs n ch y x :
+Lemma mosaic_at (val : mode -> pixel -> pixel) (bu : bool) k m0 cs n ch y x :
   0 < k -> (n < 4)%nat -> nth n cs None = Some ch -> ih ch = k ->
   0 <= y < k -> 0 <= x < k ->
   let r0 := (Z.of_nat n / 2) * k + (if bu then k - 1 - y else y) in
